@@ -456,8 +456,12 @@ private:
         // we need to know the stream position for padding purposes
         std::size_t stream_pos = this->_info._offset;
 
+        // pixels which the run-length stream leaves out ( offset coordinates, an early end of a row
+        // or of the bitmap ) take the first color of the palette
+        rgba8_pixel_t const background = this->_palette.front();
+
         using Buf_type = std::vector<rgba8_pixel_t>;
-        Buf_type buf( this->_info._width );
+        Buf_type buf( this->_info._width, background );
         Buf_type::iterator dst_it  = buf.begin();
         Buf_type::iterator dst_end = buf.end();
 
@@ -481,6 +485,23 @@ private:
 
         std::ptrdiff_t y = ybeg;
         bool finished = false;
+
+        // hands the decoded row y over and starts the next one
+        auto next_row = [&]()
+        {
+            if( y != yend )
+            {
+                copy_row_if_needed( buf, view, y );
+                y += yinc;
+            }
+
+            // a row nothing has been written to still has the background color
+            if( dst_it != buf.begin() )
+            {
+                std::fill( buf.begin(), buf.end(), background );
+                dst_it = buf.begin();
+            }
+        };
 
         while ( !finished )
         {
@@ -521,25 +542,19 @@ private:
                 {
                     case 0:  // end of row
                     {
-                        copy_row_if_needed( buf, view, y );
-
-                        y += yinc;
-                        if( y == yend )
-                        {
-                            finished = true;
-                        }
-                        else
-                        {
-                            dst_it = buf.begin();
-                            dst_end = buf.end();
-                        }
+                        next_row();
+                        finished = ( y == yend );
 
                         break;
                     }
 
                     case 1:  // end of bitmap
                     {
-                        copy_row_if_needed( buf, view, y );
+                        while( y != yend )
+                        {
+                            next_row();
+                        }
+
                         finished = true;
 
                         break;
@@ -548,13 +563,8 @@ private:
                     case 2:  // offset coordinates
                     {
                         std::ptrdiff_t dx = this->_io_dev.read_uint8();
-                        std::ptrdiff_t dy = this->_io_dev.read_uint8() * yinc;
+                        std::ptrdiff_t dy = this->_io_dev.read_uint8();
                         stream_pos += 2;
-
-                        if( dy )
-                        {
-                            copy_row_if_needed( buf, view, y );
-                        }
 
                         std::ptrdiff_t x = dst_it - buf.begin();
                         x += dx;
@@ -564,50 +574,51 @@ private:
                             io_error( "Mangled BMP file." );
                         }
 
-                        y += dy;
-                        if( yinc > 0 ? y > yend : y < yend )
+                        if( dy > ( yend - y ) * yinc )
                         {
                             io_error( "Mangled BMP file." );
                         }
 
+                        for( ; dy > 0; --dy )
+                        {
+                            next_row();
+                        }
+
                         dst_it = buf.begin() + x;
-                        dst_end = buf.end();
 
                         break;
                     }
 
                     default:  // absolute mode
                     {
-                        count = second;
+                        uint8_t packed_indices = 0;
 
-                        // clamp to boundary
-                        if( count > dst_end - dst_it )
+                        // pixels beyond the end of the row are dropped
+                        for( int i = 0; i < second; ++i )
                         {
-                            count = dst_end - dst_it;
-                        }
+                            std::size_t index = 0;
 
-                        if ( this->_info._compression == bmp_compression::_rle4 )
-                        {
-                            for( int i = 0; i < count; ++i )
+                            if ( this->_info._compression == bmp_compression::_rle4 )
                             {
-                                uint8_t packed_indices = this->_io_dev.read_uint8();
-                                ++stream_pos;
+                                // two pixels per byte, the first one in the high-order bits
+                                if( ( i & 1 ) == 0 )
+                                {
+                                    packed_indices = this->_io_dev.read_uint8();
+                                    ++stream_pos;
+                                }
 
-                                *dst_it++ = this->_palette[ packed_indices >> 4 ];
-                                if( ++i == second )
-                                    break;
-
-                                *dst_it++ = this->_palette[ packed_indices & 0x0f ];
+                                index = ( i & 1 ) ? ( packed_indices & 0x0f ) : ( packed_indices >> 4 );
                             }
-                        }
-                        else
-                        {
-                            for( int i = 0; i < count; ++i )
+                            else
                             {
-                                uint8_t c = this->_io_dev.read_uint8();
+                                index = this->_io_dev.read_uint8();
                                 ++stream_pos;
-                                *dst_it++ = this->_palette[ c ];
-                             }
+                            }
+
+                            if( dst_it != dst_end )
+                            {
+                                *dst_it++ = this->_palette[ index ];
+                            }
                         }
 
                         // pad to word boundary
